@@ -165,3 +165,149 @@ Example C03_document :
   covered_text ss a = Some [120; 65536; 121]%N /\
   write_ann ss (mkDann 0 (Some 2) (Some 3)) = mkDann 0 (Some 3) (Some 4).
 Proof. cbv zeta. repeat match goal with |- _ /\ _ => split end; vm_compute; reflexivity. Qed.
+
+(* ================================================================================================================
+   on the real writer models
+   C03_doc_offsets_are_utf16 / C03_loaded_offsets_are_codepoints above live on the small document model of Offsets.v
+   (sofas + annotations with a sofa index).  The theorems below state the same two facts on the REAL codec models:
+   Xmi.save_xmi / XmiDoc.denote_xmi and Json.save_json / JsonDoc.denote_json over the reachability traversal
+   Reach.find_all_fs — the models C01/C02/C04 are proved about and that are compared with cassis on every run.
+   Proofs: DocOffsetsProofs.v.  utf16_off t z (DocOffsets.v) = utf16_len (firstn z t), the UTF-16 length of the prefix by the
+   independent definition of Offsets.v (composition with C03_py2ext_is_utf16_prefix_len), and z itself for a sofa without
+   text (no converter table).  "indexed or merely referenced, in any view": the theorems speak about every structure the
+   writer writes, and that set is the closure of the indexed structures under the successor relation (C04_complete /
+   find_all_exact, restated as a conjunct); the sofa is the annotation's OWN (slot `sofa`), whatever view lists it. *)
+From Cassis Require Import Heap Schema Canon Lex Reach ReachProofs ReachSpec XmiDoc Xmi XmiProofs XmiWf XmiDocOk.
+From Cassis Require Import DocOffsets DocOffsetsProofs DocDeterminism CorrC04.
+Open Scope Z_scope.
+
+(* XMI writer: for every well-formed CAS (Xmi.wf_casb, the premise of C04) and every written annotation, the element that
+   carries its xmi:id has begin / end = the decimal rendering of the UTF-16 prefix length in the text of its own sofa *)
+Theorem C03_xmi_doc_offsets_are_utf16 :
+  forall (fmt : flt -> string) s c d c',
+  wf_casb s c = true -> save_xmi fmt s c = Ok (d, c') ->
+  exists all, written s c = Ok (c', all) /\
+    (forall o, reachable s (c_heap c) (member_seeds c) o -> In o (map snd all)) /\
+    forall i o f ti, In (i, o) all -> hget (c_heap c) o = Some f -> sch_find s (o_type f) = Some ti ->
+      isa s (o_type f) T_ANNOTATION = true ->
+      forall fd z, In fd (ti_feats ti) -> is_offset_fd fd = true -> slot f (fd_name fd) = VInt z ->
+      exists e vn so, In e d /\ is_fs e = true /\ x_id e = Ok i /\ (x_ns e, x_tag e) = ns_of_type (o_type f) /\
+        slot f "sofa" = VSofa vn /\ sofa_of_view c vn = Some so /\ off_in_text (s_text so) z /\
+        xattr e (fd_xname fd) = Some (z2s (utf16_off (s_text so) z)).
+Proof. exact xmi_doc_offsets_are_utf16. Qed.
+Print Assumptions C03_xmi_doc_offsets_are_utf16.
+
+(* XMI, read back by the independent denotation of the format: the offsets are the code-point offsets again (ext2py after
+   py2ext, inside C04_dec_enc_fs) and the sofa of the loaded annotation has the same text *)
+Theorem C03_xmi_loaded_offsets_are_codepoints :
+  forall (fmt : flt -> string) (parse : string -> option flt),
+  (forall x, parse (fmt x) = Some x) -> (forall x, tok_ok (fmt x)) ->
+  forall s c d c',
+  wf_inb s c = true -> save_xmi fmt s c = Ok (d, c') ->
+  exists all cc, written s c = Ok (c', all) /\ denote_xmi parse s d = Ok cc /\
+    forall i o f ti, In (i, o) all -> hget (c_heap c) o = Some f -> sch_find s (o_type f) = Some ti ->
+      isa s (o_type f) T_ANNOTATION = true ->
+      exists cf, In (i, cf) (cc_fs cc) /\ cf_type cf = o_type f /\
+        forall fd z, In fd (ti_feats ti) -> is_offset_fd fd = true -> slot f (fd_name fd) = VInt z ->
+          In (fd_xname fd, CInt z) (cf_feats cf) /\
+          exists vn so cs, slot f "sofa" = VSofa vn /\ sofa_of_view c vn = Some so /\ off_in_text (s_text so) z /\
+            In cs (cc_sofas cc) /\ cs_id cs = s_xid so /\ cs_text cs = s_text so.
+Proof. exact xmi_loaded_offsets_are_codepoints. Qed.
+Print Assumptions C03_xmi_loaded_offsets_are_codepoints.
+
+(* hence the covered text: same begin, same end, same text *)
+Theorem C03_xmi_covered_text_preserved :
+  forall (fmt : flt -> string) (parse : string -> option flt),
+  (forall x, parse (fmt x) = Some x) -> (forall x, tok_ok (fmt x)) ->
+  forall s c d c',
+  wf_inb s c = true -> save_xmi fmt s c = Ok (d, c') ->
+  exists all cc, written s c = Ok (c', all) /\ denote_xmi parse s d = Ok cc /\
+    forall i o f ti, In (i, o) all -> hget (c_heap c) o = Some f -> sch_find s (o_type f) = Some ti ->
+      isa s (o_type f) T_ANNOTATION = true ->
+      forall fb fe b e, In fb (ti_feats ti) -> In fe (ti_feats ti) -> fd_xname fb = "begin" -> fd_xname fe = "end" ->
+        slot f (fd_name fb) = VInt b -> slot f (fd_name fe) = VInt e ->
+        exists cf vn so cs, In (i, cf) (cc_fs cc) /\ In ("begin", CInt b) (cf_feats cf) /\ In ("end", CInt e) (cf_feats cf) /\
+          slot f "sofa" = VSofa vn /\ sofa_of_view c vn = Some so /\ In cs (cc_sofas cc) /\ cs_id cs = s_xid so /\
+          covered (cs_text cs) b e = covered (s_text so) b e.
+Proof. exact xmi_covered_text_preserved. Qed.
+Print Assumptions C03_xmi_covered_text_preserved.
+
+(* non-vacuity (XMI): the example CAS (texts "a😀b𐀀c" and "xy"; annotation 10 = [1,4) and 11 = [4,5) behind astral characters,
+   annotation 12 only referenced, in the second view) is well-formed; its document carries 1/6, 6/7 and 0/2; read back
+   the offsets are 1/4, 4/5, 0/2 *)
+Example C03_xmi_real_document :
+  wf_inb dx_schema dx_cas = true /\
+  (match save_xmi (tab_fmt XmiExample.ex_ftab) dx_schema dx_cas with
+   | Ok (d, _) =>
+     let attr i n := match find (fun e => match x_id e with Ok j => (j =? i) && is_fs e | _ => false end) d with
+                     | Some e => xattr e n | None => None end in
+     ([attr 10 "begin"; attr 10 "end"; attr 11 "begin"; attr 11 "end"; attr 12 "begin"; attr 12 "end"; attr 12 "sofa"],
+      match denote_xmi (tab_parse XmiExample.ex_ftab) dx_schema d with
+      | Ok cc => map (fun i => match find (fun p => fst p =? i) (cc_fs cc) with
+                               | Some p => (alookup "begin" (cf_feats (snd p)), alookup "end" (cf_feats (snd p))) | None => (None, None) end) [10; 11; 12]
+      | _ => [] end)
+   | _ => ([], []) end)
+  = ([Some "1"; Some "6"; Some "6"; Some "7"; Some "0"; Some "2"; Some "2"],
+     [(Some (CInt 1), Some (CInt 4)); (Some (CInt 4), Some (CInt 5)); (Some (CInt 0), Some (CInt 2))]) /\
+  utf16_off (Some [97; 128512; 98; 65536; 99]%N) 4 = 6.
+Proof. repeat split; vm_compute; reflexivity. Qed.
+
+(* ---- JSON ---- *)
+From Cassis Require Import JsonDoc Json JsonProofs JsonLex.
+Open Scope list_scope.
+Open Scope Z_scope.
+
+(* JSON writer (every mode): the entry of every written annotation has begin / end = the UTF-16 prefix length in the text
+   of its own sofa.  Premises as in C04_json_denote_save (wf_jsonb on the CAS after the save, 0 < next id). *)
+Theorem C03_json_doc_offsets_are_utf16 :
+  forall L s mode c d c2,
+  lex_ok L -> save_json L s mode c = Ok (d, c2) -> wf_jsonb s c2 = true -> 0 < c_next_id c ->
+  exists w types sofa_fs fss views,
+    find_all_fs true s c2 = Ok w /\
+    (forall o, In o (map snd (w_all w)) <-> reach true s (c_heap c2) (member_seeds c2) o /\ ~ null_in (c_heap c2) o) /\
+    d = JObj (types ++ [(K_FS, JArr (sofa_fs ++ fss)); (K_VIEWS, JObj views)]) /\
+    Forall2 (fun io j => exists f m, hget (c_heap c2) (snd io) = Some f /\ o_id f = Some (fst io) /\ j = JObj m /\
+               alookup K_ID m = Some (JInt (fst io)) /\
+               (is_array_name (o_type f) = false -> isa s (o_type f) T_ANNOTATION = true ->
+                exists vn sf, slot f "sofa" = VSofa vn /\ find_sofa c2 vn = Some sf /\
+                  forall x z, x = "begin" \/ x = "end" -> slot f x = VInt z ->
+                    off_in_text (s_text sf) z /\ alookup x m = Some (JInt (utf16_off (s_text sf) z))))
+            (sort_ids (w_all w)) fss.
+Proof. exact json_doc_offsets_are_utf16. Qed.
+Print Assumptions C03_json_doc_offsets_are_utf16.
+
+(* JSON, read back by the declarative semantics of the format: code-point offsets again, same text, same covered text *)
+Theorem C03_json_loaded_offsets_are_codepoints :
+  forall L s mode c d c2 cc,
+  lex_ok L -> save_json L s mode c = Ok (d, c2) -> wf_jsonb s c2 = true -> 0 < c_next_id c ->
+  denote_json L s d = Ok cc ->
+  exists w, find_all_fs true s c2 = Ok w /\
+    forall i o f, In (i, o) (w_all w) -> hget (c_heap c2) o = Some f ->
+      is_array_name (o_type f) = false -> isa s (o_type f) T_ANNOTATION = true ->
+      exists cf vn sf cs, In (i, cf) (cc_fs cc) /\ cf_type cf = o_type f /\
+        slot f "sofa" = VSofa vn /\ find_sofa c2 vn = Some sf /\
+        In cs (cc_sofas cc) /\ cs_id cs = s_xid sf /\ cs_text cs = s_text sf /\
+        (forall b e, covered (cs_text cs) b e = covered (s_text sf) b e) /\
+        forall x z, x = "begin" \/ x = "end" -> slot f x = VInt z ->
+          off_in_text (s_text sf) z /\ In (x, CInt z) (cf_feats cf).
+Proof. exact json_loaded_offsets_are_codepoints. Qed.
+Print Assumptions C03_json_loaded_offsets_are_codepoints.
+
+(* non-vacuity (JSON): same CAS, std_lex (proved lex_ok: C02_std_lex_ok); the entries of 10, 11, 12 carry 1/6, 6/7, 0/2 and
+   denote_json gives 1/4, 4/5, 0/2 *)
+Example C03_json_real_document :
+  (match save_json std_lex dx_schema MNone dx_cas with
+   | Ok (d, c2) =>
+     (wf_jsonb dx_schema c2,
+      match fs_entries d with
+      | Ok es => map (fun i => match find (fun e => fst e =? i) es with
+                               | Some e => (alookup "begin" (snd e), alookup "end" (snd e)) | None => (None, None) end) [10; 11; 12]
+      | _ => [] end,
+      match denote_json std_lex dx_schema d with
+      | Ok cc => map (fun i => match find (fun p => fst p =? i) (cc_fs cc) with
+                               | Some p => (alookup "begin" (cf_feats (snd p)), alookup "end" (cf_feats (snd p))) | None => (None, None) end) [10; 11; 12]
+      | _ => [] end)
+   | _ => (false, [], []) end)
+  = (true, [(Some (JInt 1), Some (JInt 6)); (Some (JInt 6), Some (JInt 7)); (Some (JInt 0), Some (JInt 2))],
+     [(Some (CInt 1), Some (CInt 4)); (Some (CInt 4), Some (CInt 5)); (Some (CInt 0), Some (CInt 2))]).
+Proof. vm_compute. reflexivity. Qed.
